@@ -159,6 +159,14 @@ def run(rep: vlib.Reporter, tier: str, seed: int) -> None:
     # (model / judge / observe) is a violation whose replay object is the case (first, so that its findings are among those printed)
     if worker_proto.report(rep, "C08", tier, seed):
         found = True
+    # MULTIPROCESSING: a worker process that fails in the MIDDLE of a pass (after the loop head polled the error register, while the
+    # main thread is busy with an earlier step) and has EXITED when the pass reaches its step (harness/c08_mpmid.py; Model/WorkerMid.v,
+    # Props/C08mid.v Worker_midpass_failure_message_preserved): raised with the original message, history = a model trace
+    from harness import c08_mpmid
+    pm = vlib.build_props("C08mid")
+    rep.proof(pm)
+    if c08_mpmid.family(rep, "C08", tier, seed):
+        found = True
     specs, gstats = gen_specs(rng, 120 if big else 16)
     cases: List[Dict[str, Any]] = []
     cf_decisions: List[Any] = []
@@ -299,6 +307,9 @@ def run(rep: vlib.Reporter, tier: str, seed: int) -> None:
     if not pr.ok and not found:
         rep.finding("proof-broken", "Props/C08.v no longer checks",
                     {"failed_files": pr.failed_files, "forbidden": pr.forbidden, "log_tail": pr.log[-3000:]}, found_input=False)
+    if not pm.ok and not found:
+        rep.finding("proof-broken-mid", "Props/C08mid.v no longer checks",
+                    {"failed_files": pm.failed_files, "forbidden": pm.forbidden, "log_tail": pm.log[-3000:]}, found_input=False)
 
 
 def replay(path: str) -> int:
@@ -309,6 +320,9 @@ def replay(path: str) -> int:
         return 0
     if r.get("kind") == "worker_proto":
         return worker_proto.replay_main(r, "C08")
+    if r.get("kind") == "mp_midpass":
+        from harness import c08_mpmid
+        return c08_mpmid.replay(r)
     if r.get("kind") == "midpass":
         from harness import c01_midpass
         install()
